@@ -11,7 +11,7 @@ from pathlib import Path
 from pddl_plus_parser.lisp_parsers import DomainParser, ProblemParser
 from pddl_plus_parser.models import Operator, State
 
-from ops_core import write_tmp, exc, number_table
+from ops_core import write_tmp, exc, number_table, read_state_text
 
 
 def _problem_text(objects, facts, fluents, domain="dom"):
@@ -113,9 +113,12 @@ def scope(job):
                             ch2 = "T" if Operator(action, domain, list(row["args"]), pr2.objects).is_applicable(st2) else "F"
                         except Exception:  # noqa
                             ch2 = "E"
-                        same_text = sorted(st2.serialize().split()) == sorted(make_state(held, digits).serialize().split())
+                        a, b = read_state_text(st2.serialize()), read_state_text(make_state(held, digits).serialize())
+                        same_text = (sorted(map(str, a["facts"])) == sorted(map(str, b["facts"])) and
+                                     sorted(map(str, a["fluents"])) == sorted(map(str, b["fluents"])))
                         if ch2 != ch or not same_text:
-                            raise RuntimeError("state construction differs from the problem parser's: %r %r %r" % (ch, ch2, txt))
+                            raise RuntimeError("state construction differs from the problem parser's: %r %r %r | %r | %r" % (
+                                ch, ch2, txt, st2.serialize(), make_state(held, digits).serialize()))
                     finally:
                         p2.unlink()
             answers.append("".join(chars))
